@@ -1,12 +1,948 @@
-//! stub: property C16 has no correspondence harness yet
+//! C16 — static files stay inside their root and answer ranges exactly. Public API only:
+//! `PathBufWrap::parse_path` directly, and `Files::new("/", root)` behind `actix_web::test`
+//! on a temp tree with canary files outside the root.
+//!
+//! Case lines (same grammar as `lean/ActixModel/Drv/C16.lean`):
+//!   P h=<0|1> p=<hex utf-8>
+//!   S c=<flags|-> m=<METHOD> u=<uri path> [r=<hex Range value>] [im=<tags>] [inm=<tags>] [ius=<off|bad>] [ims=<off|bad>]
+use std::{
+    cell::RefCell,
+    fs,
+    path::{Component, Path, PathBuf},
+    pin::Pin,
+    sync::atomic::{AtomicUsize, Ordering},
+    time::{Duration, UNIX_EPOCH},
+};
+
+use actix_files::{Files, PathBufWrap, UriSegmentError};
+use actix_service::Service;
+use actix_web::{
+    body::{BodySize, MessageBody},
+    http::header::{self, HeaderName, HeaderValue, HttpDate},
+    http::{Method, StatusCode},
+    test::{self, TestRequest},
+    App,
+};
+
 use super::Prop;
-use crate::common::CaseResult;
+use crate::common::{hex, hex0, kv, unhex, CaseResult, Ctx, Rng, Tier};
+
+const RULE: &str = "cases = (P) PathBufWrap::parse_path on every token sequence up to the tier's depth over \
+{a, ., .., /, %2e, %2f, %5c, %00, NUL, é, *, :, <, >, \\, %, .h, space} for both hidden-file settings plus seeded longer \
+sequences over a wider alphabet; (S) one request to Files::new(\"/\", root) on a temp tree (26 entries, canary files outside \
+the root): URL paths from dot segments, encoded dots/slashes/backslashes/NUL/UTF-8/invalid UTF-8, double encodings and names \
+of real files × config flags (hidden, index, listing, redirect), every Range shape (first-last, first-, -suffix, multiple, \
+whitespace, malformed, overflowing) × boundary numbers × file lengths {0,1,10,65536,65537,70000}, and If-Match / \
+If-None-Match / If-(Un)Modified-Since combinations; a case is non-trivial if parse_path returned a non-empty path or the \
+service answered with file bytes, a listing, a redirect, 304, 412 or 416; distinct = distinct (case, output) hashes";
+
+/// (relative path, file id (0 = directory), length)
+const TREE: &[(&str, usize, usize)] = &[
+    ("f0", 1, 0),
+    ("f1", 2, 1),
+    ("f10", 3, 10),
+    ("big.bin", 4, 70000),
+    ("index.html", 5, 20),
+    ("a", 0, 0),
+    ("a/x.txt", 6, 5),
+    ("a/b", 0, 0),
+    ("a/b/y.txt", 7, 7),
+    ("a/index.html", 8, 12),
+    ("c", 0, 0),
+    ("c/z", 9, 3),
+    (".hid", 10, 4),
+    (".hd", 0, 0),
+    (".hd/h.txt", 11, 6),
+    ("sp ce", 12, 8),
+    ("é.txt", 13, 9),
+    ("b\\s", 14, 11),
+    ("%2e", 15, 13),
+    ("...", 16, 14),
+    ("x:y", 17, 15),
+    ("d+e", 18, 17),
+    ("q?x", 19, 18),
+    ("e", 0, 0),
+    ("k64.bin", 20, 65536),
+    ("k64p.bin", 21, 65537),
+];
+/// files *outside* the served root: `<tmp>/canary.txt`, `<tmp>/root2/f10`
+const OUTSIDE: &[(&str, usize, usize)] = &[("canary.txt", 90, 16), ("root2/f10", 91, 10), ("root2/canary.txt", 92, 16)];
+
+const T0: u64 = 1_600_000_000;
+
+fn content(id: usize, len: usize) -> Vec<u8> {
+    (0..len).map(|i| ((i * 7 + id * 13 + (i / 251) * 3) % 256) as u8).collect()
+}
+
+fn cksum(b: &[u8]) -> u64 {
+    b.iter().fold(0u64, |acc, &x| (acc * 31 + x as u64 + 1) % 4294967296)
+}
+
+struct TempTree {
+    base: PathBuf,
+    root: PathBuf,
+}
+
+static TREE_SEQ: AtomicUsize = AtomicUsize::new(0);
+
+impl TempTree {
+    fn new() -> TempTree {
+        let n = TREE_SEQ.fetch_add(1, Ordering::SeqCst);
+        let base = std::env::temp_dir().join(format!("vh-c16-{}-{}", std::process::id(), n));
+        let _ = fs::remove_dir_all(&base);
+        let root = base.join("root");
+        fs::create_dir_all(&root).unwrap();
+        let mtime = UNIX_EPOCH + Duration::from_millis(T0 * 1000 + 500);
+        let put = |p: PathBuf, id: usize, len: usize| {
+            if id == 0 {
+                fs::create_dir_all(&p).unwrap();
+            } else {
+                if let Some(d) = p.parent() {
+                    fs::create_dir_all(d).unwrap();
+                }
+                fs::write(&p, content(id, len)).unwrap();
+                let f = fs::OpenOptions::new().write(true).open(&p).unwrap();
+                f.set_modified(mtime).unwrap();
+            }
+        };
+        for &(p, id, len) in TREE {
+            put(root.join(p), id, len);
+        }
+        for &(p, id, len) in OUTSIDE {
+            put(base.join(p), id, len);
+        }
+        TempTree { base, root }
+    }
+}
+
+impl Drop for TempTree {
+    fn drop(&mut self) {
+        let _ = fs::remove_dir_all(&self.base);
+    }
+}
+
+thread_local! {
+    /// one read-only tree per worker thread; removed when the thread exits
+    static TREE_TL: RefCell<Option<TempTree>> = const { RefCell::new(None) };
+}
+
+fn with_tree<R>(f: impl FnOnce(&TempTree) -> R) -> R {
+    TREE_TL.with(|t| {
+        let mut t = t.borrow_mut();
+        if t.is_none() {
+            *t = Some(TempTree::new());
+        }
+        f(t.as_ref().unwrap())
+    })
+}
+
+// ---------------------------------------------------------------------------------------------
+// P: parse_path
+
+fn show_err(e: &UriSegmentError) -> String {
+    match e {
+        UriSegmentError::BadStart(c) => format!("BadStart({:02x})", *c as u32),
+        UriSegmentError::BadChar(c) => format!("BadChar({:02x})", *c as u32),
+        UriSegmentError::BadEnd(c) => format!("BadEnd({:02x})", *c as u32),
+        UriSegmentError::NotValidUtf8 => "NotValidUtf8".into(),
+        _ => "Other".into(),
+    }
+}
+
+/// the property's own words on a parse result, using std's component parser and a lexical
+/// resolution written here (no model): joined onto a root the path has only `Normal`
+/// components below the root and resolves to a location under it
+fn escape_check(rel: &Path) -> Option<String> {
+    let root = Path::new("/srv/root");
+    let full = root.join(rel);
+    if !full.starts_with(root) {
+        return Some(format!("join({:?}) does not start with the root", rel));
+    }
+    let mut depth: i64 = 0;
+    for c in rel.components() {
+        match c {
+            Component::Normal(s) => {
+                let b = s.as_encoded_bytes();
+                if b.is_empty() || b == b"." || b == b".." || b.contains(&b'/') {
+                    return Some(format!("bad normal component {:?}", s));
+                }
+                depth += 1;
+            }
+            Component::ParentDir => {
+                depth -= 1;
+                if depth < 0 {
+                    return Some(format!("{:?} climbs above the root", rel));
+                }
+                return Some(format!("{:?} contains a parent-dir component", rel));
+            }
+            Component::RootDir | Component::Prefix(_) => return Some(format!("{:?} is absolute", rel)),
+            Component::CurDir => return Some(format!("{:?} contains a cur-dir component", rel)),
+        }
+    }
+    // lexical resolution of the raw string as the OS would walk it
+    let mut stack: Vec<&[u8]> = vec![b"srv", b"root"];
+    for piece in rel.as_os_str().as_encoded_bytes().split(|b| *b == b'/') {
+        match piece {
+            b"" | b"." => {}
+            b".." => {
+                stack.pop();
+            }
+            p => stack.push(p),
+        }
+        if stack.len() < 2 || stack[0] != b"srv" || stack[1] != b"root" {
+            return Some(format!("{:?} walks out of the root", rel));
+        }
+    }
+    None
+}
+
+fn run_p(line: &str) -> CaseResult {
+    let hidden = kv(line, "h") == Some("1");
+    let Some(p) = kv(line, "p").and_then(unhex) else { return CaseResult::ok("badcase".into()).tag("badcase") };
+    let Ok(s) = String::from_utf8(p) else {
+        let mut r = CaseResult::ok("badcase".into()).tag("badcase");
+        r.nontrivial = false;
+        return r;
+    };
+    match PathBufWrap::parse_path(&s, hidden) {
+        Ok(w) => {
+            let path: &Path = w.as_ref();
+            let bytes = path.as_os_str().as_encoded_bytes();
+            let mut r = CaseResult::ok(format!("ok {}", hex(bytes))).tag("P:ok");
+            r.nontrivial = !bytes.is_empty();
+            if let Some(why) = escape_check(path) {
+                r = r.fail("path-escape", why);
+            }
+            r
+        }
+        Err(e) => {
+            let mut r = CaseResult::ok(format!("err {}", show_err(&e))).tag(&format!("P:{}", show_err(&e)));
+            r.nontrivial = false;
+            r
+        }
+    }
+}
+
+// ---------------------------------------------------------------------------------------------
+// S: one request through the service
+
+fn tags_header(v: &str, etag: &str) -> Option<HeaderValue> {
+    if v == "nonstr" {
+        return HeaderValue::from_bytes(b"\"a\xffb\"").ok();
+    }
+    let mut parts = Vec::new();
+    for t in v.split(',') {
+        parts.push(match t {
+            "E" => format!("\"{}\"", etag),
+            "W" => format!("W/\"{}\"", etag),
+            "X" => "\"xyz\"".to_owned(),
+            "V" => "W/\"xyz\"".to_owned(),
+            "bad" => "garbage".to_owned(),
+            "*" => "*".to_owned(),
+            _ => return None,
+        });
+    }
+    HeaderValue::from_str(&parts.join(", ")).ok()
+}
+
+fn date_header(v: &str) -> Option<HeaderValue> {
+    if v == "bad" {
+        return Some(HeaderValue::from_static("yesterday"));
+    }
+    let secs = if let Some(n) = v.strip_prefix('-') {
+        T0.checked_sub(n.parse().ok()?)?
+    } else if let Some(n) = v.strip_prefix('+') {
+        T0 + n.parse::<u64>().ok()?
+    } else {
+        T0 + v.parse::<u64>().ok()?
+    };
+    let d = HttpDate::from(UNIX_EPOCH + Duration::from_secs(secs));
+    HeaderValue::from_str(&d.to_string()).ok()
+}
+
+struct Answer {
+    status: StatusCode,
+    headers: header::HeaderMap,
+    size: BodySize,
+    body: Vec<u8>,
+    chunks: Vec<usize>,
+    body_err: bool,
+}
+
+fn build_files(root: &Path, flags: &str) -> Files {
+    let mut f = Files::new("/", root);
+    for c in flags.chars() {
+        f = match c {
+            'h' => f.use_hidden_files(),
+            'i' => f.index_file("index.html"),
+            'l' => f.show_files_listing(),
+            'r' => f.redirect_to_slash_directory(),
+            'E' => f.use_etag(false),
+            'M' => f.use_last_modified(false),
+            's' => f.read_mode_threshold(u64::MAX),
+            _ => f,
+        };
+    }
+    f
+}
+
+async fn ask(root: &Path, flags: &str, method: &Method, uri: &str, hdrs: &[(HeaderName, HeaderValue)]) -> Result<Answer, String> {
+    let srv = test::init_service(App::new().service(build_files(root, flags))).await;
+    let mut req = TestRequest::default().method(method.clone()).uri(uri);
+    for (n, v) in hdrs {
+        req = req.insert_header((n.clone(), v.clone()));
+    }
+    let res = srv.call(req.to_request()).await.map_err(|e| format!("{e}"))?;
+    let status = res.status();
+    let headers = res.headers().clone();
+    let mut body = res.into_body();
+    let size = body.size();
+    let mut data = Vec::new();
+    let mut chunks = Vec::new();
+    let mut body_err = false;
+    loop {
+        match std::future::poll_fn(|cx| Pin::new(&mut body).poll_next(cx)).await {
+            Some(Ok(b)) => {
+                chunks.push(b.len());
+                data.extend_from_slice(&b);
+            }
+            Some(Err(_)) => {
+                body_err = true;
+                break;
+            }
+            None => break,
+        }
+    }
+    Ok(Answer { status, headers, size, body: data, chunks, body_err })
+}
+
+fn hv(a: &Answer, n: HeaderName) -> Option<String> {
+    a.headers.get(n).map(|v| String::from_utf8_lossy(v.as_bytes()).into_owned())
+}
+
+/// `bytes a-b/t` → (a, b, t)
+fn parse_content_range(s: &str) -> Option<(u64, u64, u64)> {
+    let rest = s.strip_prefix("bytes ")?;
+    let (range, total) = rest.split_once('/')?;
+    let (a, b) = range.split_once('-')?;
+    let num = |x: &str| if !x.is_empty() && x.bytes().all(|c| c.is_ascii_digit()) { x.parse::<u64>().ok() } else { None };
+    Some((num(a)?, num(b)?, num(total)?))
+}
+
+/// RFC 7233 reading of a Range value written in the canonical grammar (no whitespace, numbers
+/// that fit u64): the satisfiable ranges, clamped to the representation; `None` = not canonical
+fn rfc_ranges(value: &[u8], len: u64) -> Option<Vec<(u64, u64)>> {
+    let s = std::str::from_utf8(value).ok()?;
+    let set = s.strip_prefix("bytes=")?;
+    let mut out = Vec::new();
+    let mut specs = 0;
+    for spec in set.split(',') {
+        let (a, b) = spec.split_once('-')?;
+        let num = |x: &str| if !x.is_empty() && x.len() <= 19 && x.bytes().all(|c| c.is_ascii_digit()) { x.parse::<u64>().ok() } else { None };
+        specs += 1;
+        if a.is_empty() {
+            let n = num(b)?;
+            if n > 0 && len > 0 {
+                out.push((len - n.min(len), len - 1));
+            }
+        } else {
+            let first = num(a)?;
+            let last = if b.is_empty() { u64::MAX } else { num(b)? };
+            if last < first {
+                return None; // invalid spec: the whole header may be ignored or rejected
+            }
+            if first < len {
+                out.push((first, last.min(len - 1)));
+            }
+        }
+    }
+    if specs == 0 {
+        return None;
+    }
+    Some(out)
+}
+
+fn err_class(body: &[u8]) -> String {
+    let s = String::from_utf8_lossy(body);
+    let ch = |s: &str| -> String {
+        // "...: ('x')" or "... ('x')"
+        let c = s.rsplit_once("('").and_then(|(_, r)| r.chars().next()).unwrap_or('?');
+        format!("{:02x}", c as u32)
+    };
+    if s.is_empty() {
+        "-".into()
+    } else if s.starts_with("segment started with invalid character") {
+        format!("BadStart({})", ch(&s))
+    } else if s.starts_with("segment contained invalid character") {
+        format!("BadChar({})", ch(&s))
+    } else if s.starts_with("segment ended with invalid character") {
+        format!("BadEnd({})", ch(&s))
+    } else if s.starts_with("path is not a valid UTF-8 string") {
+        "NotValidUtf8".into()
+    } else if s.starts_with("unable to render directory without index file") {
+        "IsDirectory".into()
+    } else if s.starts_with("Request did not meet this resource's requirements.") {
+        "MethodNotAllowed".into()
+    } else {
+        format!("other:{}", hex0(&body[..body.len().min(40)]))
+    }
+}
+
+fn uri_ok(u: &str) -> bool {
+    u.starts_with('/')
+        && u.bytes().all(|b| {
+            matches!(b, 0x21 | 0x24..=0x3B | 0x3D | 0x40..=0x5F | 0x61..=0x7A | 0x7C | 0x7E | b'"' | b'{' | b'}')
+        })
+}
+
+fn run_s(line: &str) -> CaseResult {
+    let flags = kv(line, "c").unwrap_or("-").to_owned();
+    let method_s = kv(line, "m").unwrap_or("GET");
+    let Some(uri) = kv(line, "u") else { return CaseResult::ok("badcase".into()) };
+    if !uri_ok(uri) || uri.parse::<actix_web::http::Uri>().is_err() {
+        let mut r = CaseResult::ok("baduri".into()).tag("baduri");
+        r.nontrivial = false;
+        return r;
+    }
+    let Ok(method) = Method::from_bytes(method_s.as_bytes()) else { return CaseResult::ok("badcase".into()) };
+    let range: Option<Vec<u8>> = match kv(line, "r") {
+        None => None,
+        Some(h) => match unhex(h) {
+            Some(b) => Some(b),
+            None => return CaseResult::ok("badcase".into()),
+        },
+    };
+    let bad = || {
+        let mut r = CaseResult::ok("badcase".into()).tag("badcase");
+        r.nontrivial = false;
+        r
+    };
+    let im = kv(line, "im");
+    let inm = kv(line, "inm");
+    let ius = kv(line, "ius");
+    let ims = kv(line, "ims");
+
+    with_tree(|tree| {
+        crate::common::block_on_system(async {
+            // the file's own entity tag, needed to write matching If-Match / If-None-Match values
+            let needs_etag = |v: Option<&str>| v.map(|s| s.split(',').any(|t| t == "E" || t == "W")).unwrap_or(false);
+            let mut etag = "noetag".to_owned();
+            if needs_etag(im) || needs_etag(inm) {
+                let fl: String = flags.chars().filter(|c| *c != 'E').collect();
+                if let Ok(a) = ask(&tree.root, &fl, &Method::GET, uri, &[]).await {
+                    if let Some(e) = hv(&a, header::ETAG) {
+                        if !flags.contains('E') {
+                            etag = e.trim_matches('"').to_owned();
+                        }
+                    }
+                }
+            }
+            let mut hdrs: Vec<(HeaderName, HeaderValue)> = Vec::new();
+            if let Some(r) = &range {
+                match HeaderValue::from_bytes(r) {
+                    Ok(v) => hdrs.push((header::RANGE, v)),
+                    Err(_) => return bad(),
+                }
+            }
+            for (name, v) in [(header::IF_MATCH, im), (header::IF_NONE_MATCH, inm)] {
+                if let Some(v) = v {
+                    match tags_header(v, &etag) {
+                        Some(h) => hdrs.push((name, h)),
+                        None => return bad(),
+                    }
+                }
+            }
+            for (name, v) in [(header::IF_UNMODIFIED_SINCE, ius), (header::IF_MODIFIED_SINCE, ims)] {
+                if let Some(v) = v {
+                    match date_header(v) {
+                        Some(h) => hdrs.push((name, h)),
+                        None => return bad(),
+                    }
+                }
+            }
+            let a = match ask(&tree.root, &flags, &method, uri, &hdrs).await {
+                Ok(a) => a,
+                Err(e) => return CaseResult::ok("svcerr".into()).fail("service-error", e),
+            };
+            judge(line, &a, range.as_deref(), im.is_some() || inm.is_some() || ius.is_some() || ims.is_some())
+        })
+    })
+}
+
+/// canonical output + the property's own words on the answer (no model involved)
+fn judge(_line: &str, a: &Answer, range: Option<&[u8]>, conditional: bool) -> CaseResult {
+    let st = a.status.as_u16();
+    let ct = hv(a, header::CONTENT_TYPE).unwrap_or_default();
+    let is_listing = st == 200 && ct.starts_with("text/html") && a.body.starts_with(b"<html><head><title>Index of ");
+    let cr = hv(a, header::CONTENT_RANGE);
+    let file_like = !is_listing && (matches!(st, 200 | 206 | 304 | 412 | 416) || (st == 400 && a.body.is_empty()));
+
+    let mut fails: Vec<(String, String)> = Vec::new();
+    let mut fail = |sig: &str, d: String| fails.push((sig.to_owned(), d));
+
+    let output = if is_listing {
+        let n = a.body.windows(4).filter(|w| w == b"<li>").count();
+        format!("200 e=listing:{} cr=- sz=-", n)
+    } else if file_like {
+        let sz = match a.size {
+            BodySize::None => "none".to_owned(),
+            BodySize::Sized(n) => n.to_string(),
+            BodySize::Stream => "stream".to_owned(),
+        };
+        let ch = if a.chunks.is_empty() { "-".to_owned() } else { a.chunks.iter().map(|c| c.to_string()).collect::<Vec<_>>().join("+") };
+        format!(
+            "{} e=- cr={} sz={} body={}:{} ch={}{}",
+            st,
+            cr.as_deref().map(|s| s.replace(' ', "_")).unwrap_or_else(|| "-".into()),
+            sz,
+            a.body.len(),
+            cksum(&a.body),
+            ch,
+            if a.body_err { " bodyerr" } else { "" }
+        )
+    } else if st == 307 || st == 308 {
+        let loc = a.headers.get(header::LOCATION).map(|v| hex0(v.as_bytes())).unwrap_or_default();
+        format!("{} e=redirect:{} cr=- sz=-", st, loc)
+    } else {
+        format!("{} e={} cr=- sz=-", st, err_class(&a.body))
+    };
+
+    // ---- oracle -------------------------------------------------------------------------------
+    let inside: Vec<(usize, Vec<u8>)> = TREE.iter().filter(|e| e.1 != 0).map(|e| (e.1, content(e.1, e.2))).collect();
+    let outside: Vec<(usize, Vec<u8>)> = OUTSIDE.iter().map(|e| (e.1, content(e.1, e.2))).collect();
+    if !matches!(st, 200 | 206 | 304 | 307 | 400 | 404 | 405 | 412 | 416) {
+        fail("unexpected-status", format!("status {}", st));
+    }
+    if a.body_err {
+        fail("body-stream-error", "the body stream ended with an error".into());
+    }
+    // bytes of a file outside the root must never appear in any answer
+    for (id, c) in &outside {
+        if !a.body.is_empty() && (a.body == *c || (a.body.len() >= 4 && c.windows(a.body.len()).any(|w| w == &a.body[..]) && st == 206)) {
+            fail("served-outside-root", format!("body equals bytes of outside file #{}", id));
+        }
+    }
+    if file_like {
+        match st {
+            200 => {
+                if !inside.iter().any(|(_, c)| *c == a.body) {
+                    fail("body-not-a-root-file", format!("200 body of {} bytes is not the content of any file under the root", a.body.len()));
+                }
+                if a.size != BodySize::Sized(a.body.len() as u64) {
+                    fail("length-mismatch", format!("declared {:?}, body {}", a.size, a.body.len()));
+                }
+                if cr.is_some() {
+                    fail("content-range-on-200", format!("{:?}", cr));
+                }
+            }
+            206 => match cr.as_deref().and_then(parse_content_range) {
+                None => fail("content-range-malformed", format!("206 with Content-Range {:?}", cr)),
+                Some((first, last, total)) => {
+                    if !(first <= last && last < total) {
+                        fail("impossible-range", format!("Content-Range {:?}", cr));
+                    } else {
+                        let want_len = (last - first + 1) as usize;
+                        let hit = inside.iter().any(|(_, c)| {
+                            c.len() as u64 == total && c[first as usize..=last as usize] == a.body[..]
+                        });
+                        if a.body.len() != want_len || !hit {
+                            fail("range-body-mismatch", format!("Content-Range {:?}, body {} bytes, not file[{}..={}] of a {}-byte root file", cr, a.body.len(), first, last, total));
+                        }
+                        if a.size != BodySize::Sized(want_len as u64) {
+                            fail("length-mismatch", format!("declared {:?}, range {} bytes", a.size, want_len));
+                        }
+                    }
+                }
+            },
+            304 | 412 | 416 | 400 => {
+                if !a.body.is_empty() {
+                    fail("body-on-bodiless-status", format!("{} with {} body bytes", st, a.body.len()));
+                }
+                if st == 416 {
+                    let ok = cr.as_deref().and_then(|s| s.strip_prefix("bytes */")).and_then(|t| t.parse::<u64>().ok())
+                        .map(|t| inside.iter().any(|(_, c)| c.len() as u64 == t)).unwrap_or(false);
+                    if !ok {
+                        fail("content-range-malformed", format!("416 with Content-Range {:?}", cr));
+                    }
+                }
+                if st == 400 {
+                    // only a Range value that is not visible ASCII may be answered 400
+                    let non_ascii = range.map(|r| r.iter().any(|b| !(*b == b'\t' || (0x20..0x7f).contains(b)))).unwrap_or(false);
+                    if !non_ascii {
+                        fail("unexpected-status", "400 for a request whose Range value is a plain string".into());
+                    }
+                }
+            }
+            _ => {}
+        }
+        // RFC 7233 reference for canonical Range values (only when no conditional header interferes)
+        if let (Some(r), false) = (range, conditional) {
+            let total = match st {
+                200 => Some(a.body.len() as u64),
+                206 => cr.as_deref().and_then(parse_content_range).map(|x| x.2),
+                416 => cr.as_deref().and_then(|s| s.strip_prefix("bytes */")).and_then(|t| t.parse::<u64>().ok()),
+                _ => None,
+            };
+            if let Some(total) = total {
+                if let Some(sat) = rfc_ranges(r, total) {
+                    match st {
+                        206 => {
+                            let got = cr.as_deref().and_then(parse_content_range).map(|x| (x.0, x.1));
+                            if !got.map(|g| sat.contains(&g)).unwrap_or(false) {
+                                fail("range-not-requested", format!("Content-Range {:?} is none of the requested satisfiable ranges {:?}", cr, sat));
+                            }
+                        }
+                        416 => {
+                            if !sat.is_empty() {
+                                fail("satisfiable-range-refused", format!("416 although {:?} is satisfiable for length {}", sat, total));
+                            }
+                        }
+                        200 => {
+                            if total > 0 && !sat.is_empty() && sat != vec![(0, total - 1)] {
+                                // ignoring Range is allowed by RFC 7233 but not by the model of this code
+                                fail("range-ignored", format!("200 although {:?} was requested", sat));
+                            }
+                        }
+                        _ => {}
+                    }
+                }
+            }
+        }
+    }
+    // RFC 7232 reference for the conditional headers (symbolic values, no model): 412 / 304 only
+    // when a sent precondition is false, and a false precondition is not ignored
+    if file_like && conditional {
+        let flags = kv(_line, "c").unwrap_or("-");
+        let (has_etag, has_lm) = (!flags.contains('E'), !flags.contains('M'));
+        let toks = |k: &str| kv(_line, k).map(|v| v.split(',').collect::<Vec<_>>());
+        let (im, inm) = (toks("im"), toks("inm"));
+        let off = |k: &str| kv(_line, k).and_then(|v| v.trim_start_matches('+').parse::<i64>().ok());
+        let unspecified = [&im, &inm].iter().any(|t| t.as_ref().map(|t| t.contains(&"nonstr")).unwrap_or(false));
+        if !unspecified {
+            let strong = |t: &Vec<&str>| t == &vec!["*"] || (has_etag && t.contains(&"E"));
+            let weak = |t: &Vec<&str>| t == &vec!["*"] || (has_etag && (t.contains(&"E") || t.contains(&"W")));
+            let im_fail = im.as_ref().map(|t| !strong(t)).unwrap_or(false);
+            let ius_fail = has_lm && off("ius").map(|d| d < 0).unwrap_or(false);
+            let cond304 = match &inm {
+                Some(t) => weak(t),
+                None => has_lm && off("ims").map(|d| d >= 0).unwrap_or(false),
+            };
+            if st == 412 && !(im_fail || ius_fail) {
+                fail("412-without-failed-precondition", format!("{}", _line));
+            }
+            if st == 304 && !cond304 {
+                fail("304-without-matching-validator", format!("{}", _line));
+            }
+            if im_fail && matches!(st, 200 | 206 | 304) {
+                fail("if-match-ignored", format!("status {} although If-Match does not match", st));
+            }
+            if cond304 && !(im_fail || ius_fail) && matches!(st, 200 | 206) {
+                fail("not-modified-ignored", format!("status {} although the validator matches", st));
+            }
+        }
+    } else if file_like && matches!(st, 304 | 412) {
+        fail("conditional-status-without-conditional-header", format!("status {}", st));
+    }
+    let mut r = CaseResult::ok(output);
+    r.nontrivial = is_listing || matches!(st, 200 | 206 | 304 | 307 | 412 | 416);
+    r.tags.push(format!("S:{}", st));
+    if is_listing {
+        r.tags.push("S:listing".into());
+    }
+    if range.is_some() {
+        r.tags.push("S:range".into());
+    }
+    if conditional {
+        r.tags.push("S:conditional".into());
+    }
+    r.fail = fails.into_iter().next();
+    r
+}
+
+fn run(line: &str) -> CaseResult {
+    match line.split_ascii_whitespace().next() {
+        Some("P") => run_p(line),
+        Some("S") => run_s(line),
+        _ => CaseResult::ok("badcase".into()),
+    }
+}
+
+// ---------------------------------------------------------------------------------------------
+// generator
+
+const P_SMALL: &[&str] = &[
+    "a", ".", "..", "/", "%2e", "%2f", "%5c", "%00", "\0", "é", "*", ":", "<", ">", "\\", "%", ".h", " ",
+];
+const P_WIDE: &[&str] = &[
+    "a", "b", "seg1", ".", "..", "...", "/", "//", "%2e", "%2E", "%2f", "%2F", "%5c", "%5C", "%00", "\0", "é", "%c3%a9",
+    "%c3", "%a9", "%ff", "*", ":", "<", ">", "\\", "%", "%2", "%g0", "%25", "%252e", "%252f", ".h", " ", "%20", "\u{202e}",
+    "C:", "~", "-", "_", "%2e%2e", "..%2f", "%2e.", ".%2e", "etc/passwd", "\t", "\n", "%0a", "+", "%2b", "?", "#", "\u{10ffff}",
+];
+
+const S_TOKENS: &[&str] = &[
+    "a", "b", "c", "e", "f0", "f1", "f10", "x.txt", "y.txt", "z", "index.html", "big.bin", ".", "..", "...", "/", "/", "/",
+    "%2e", "%2E", "%2e%2e", ".%2e", "%2f", "%2F", "%5c", "\\", "%00", "%25", "%252e", "%252f", "%252e%252e", "%%32e", "%%32f",
+    "%c3%a9.txt", "%c3", "%a9", "%ff", ".hid", ".hd", "h.txt", "sp%20ce", "b%5cs", "b\\s", "%252e", "x:y", "x%3ay", ":", "*",
+    "%3c", "%3e", "%3a", "d+e", "d%2be", "q%3fx", "%2", "%", "%zz", "canary.txt", "root2", "root", "~", "%7e", "%61", "%41",
+];
+const S_SAFE_TOKENS: &[&str] = &["a", "b", "c", "e", "f10", "x.txt", "index.html", "/", "/", "..", ".hd", "nope"];
+
+fn flags_pick(rng: &mut Rng, pool: &[char]) -> String {
+    let mut s = String::new();
+    for &c in pool {
+        if rng.chance(1, 3) {
+            s.push(c);
+        }
+    }
+    if s.is_empty() {
+        "-".into()
+    } else {
+        s
+    }
+}
+
+fn enumerate_seq(tokens: &[&str], depth: usize, mut f: impl FnMut(&[usize])) {
+    for d in 1..=depth {
+        let mut idx = vec![0usize; d];
+        'outer: loop {
+            f(&idx);
+            let mut k = d;
+            loop {
+                if k == 0 {
+                    break 'outer;
+                }
+                k -= 1;
+                idx[k] += 1;
+                if idx[k] < tokens.len() {
+                    break;
+                }
+                idx[k] = 0;
+            }
+        }
+    }
+}
+
+fn range_numbers(len: u64) -> Vec<String> {
+    let mut v: Vec<String> = vec![
+        "0".into(),
+        "1".into(),
+        "2".into(),
+        "5".into(),
+        "9".into(),
+        "007".into(),
+        "65535".into(),
+        "65536".into(),
+        "69999".into(),
+        "18446744073709551615".into(),
+        "18446744073709551616".into(),
+        "99999999999999999999999".into(),
+    ];
+    for d in [-1i64, 0, 1] {
+        let n = len as i64 + d;
+        if n >= 0 {
+            v.push(n.to_string());
+        }
+    }
+    v.sort();
+    v.dedup();
+    v
+}
+
+const RANGE_FILES: &[(&str, u64)] = &[("f0", 0), ("f1", 1), ("f10", 10), ("big.bin", 70000), ("k64.bin", 65536), ("k64p.bin", 65537)];
+
+const MALFORMED_RANGES: &[&str] = &[
+    "", "foo", "bytes=", "bytes", "bytes=7", "bytes= 7 ", "bytes=5-4", "bytes=--5", "bytes=--5,4--3", "bytes=A-", "bytes=A-Z",
+    "bytes= -Z", "bytes=5-Z", "bytes=Ran-dom, garbage", "bytes=0x01-0x02", "bytes=         ", "bytes= , , ,   ", "Bytes=0-1",
+    "bytes =0-1", " bytes=0-1", "bytes=0-1 ", "bytes=\t0 - 1\t", "bytes=0-1,", "bytes=,0-1", "bytes=0-1,,2-3", "bytes=-", "bytes=-0",
+    "bytes=-0,-0", "bytes=-0,0-0", "bytes=0-0,-0", "bytes=+1-2", "bytes=1-+2", "bytes=1-2-3", "bytes=-1-2", "items=0-1",
+    "bytes=0-0", "bytes=0-", "bytes=-1", "bytes=-5", "bytes=- 5", "bytes=5 -", "bytes=1-2,x", "bytes=x,1-2", "bytes=9-,0-0",
+    "bytes=100-,200-", "bytes=100-,-0", "bytes=100-,-3", "bytes=-70001", "bytes=00000000000000000000001-2", "bytes=1-2;q=1",
+];
+
+const TAG_VALUES: &[&str] = &["E", "W", "X", "V", "*", "bad", "nonstr", "E,X", "X,E", "X,V", "W,X", "bad,E", "*,E", "bad,bad", "V,W"];
+const DATE_VALUES: &[&str] = &["-1", "0", "+1", "-100000", "+100000", "bad"];
+
+fn s_case(flags: &str, m: &str, uri: &str, extra: &str) -> String {
+    let mut s = format!("S c={} m={} u={}", flags, m, uri);
+    if !extra.is_empty() {
+        s.push(' ');
+        s.push_str(extra);
+    }
+    s
+}
+
+fn gen(ctx: &Ctx) -> Vec<String> {
+    let mut rng = Rng::new(ctx.seed);
+    let mut cases = Vec::new();
+    let quick = ctx.tier == Tier::Quick;
+
+    // ---- P: exhaustive small alphabet, both hidden settings
+    let depth = if quick { 3 } else { 4 };
+    enumerate_seq(P_SMALL, depth, |idx| {
+        let s: String = idx.iter().map(|&i| P_SMALL[i]).collect();
+        let lead = if idx.len() % 2 == 0 { "/" } else { "" };
+        let h = idx.iter().sum::<usize>() % 2;
+        cases.push(format!("P h={} p={}", h, hex(format!("{lead}{s}").as_bytes())));
+    });
+    // ---- P: random longer sequences over the wide alphabet
+    for _ in 0..ctx.budget(3000) {
+        let n = rng.range(1, 12);
+        let mut s = String::new();
+        if rng.chance(3, 4) {
+            s.push('/');
+        }
+        for _ in 0..n {
+            s.push_str(*rng.pick(P_WIDE));
+            if rng.chance(1, 2) {
+                s.push('/');
+            }
+        }
+        cases.push(format!("P h={} p={}", rng.below(2), hex(s.as_bytes())));
+    }
+
+    // ---- S: paths
+    for _ in 0..ctx.budget(2500) {
+        let n = rng.range(1, 7);
+        let mut u = String::from("/");
+        for _ in 0..n {
+            u.push_str(*rng.pick(S_TOKENS));
+            if rng.chance(1, 2) {
+                u.push('/');
+            }
+        }
+        let flags = flags_pick(&mut rng, &['h', 'i', 'l', 's']);
+        let m = if rng.chance(1, 12) { *rng.pick(&["HEAD", "POST", "PUT", "DELETE"]) } else { "GET" };
+        cases.push(s_case(&flags, m, &u, ""));
+    }
+    // redirect flag only with header-safe paths
+    for _ in 0..ctx.budget(300) {
+        let n = rng.range(1, 5);
+        let mut u = String::from("/");
+        for _ in 0..n {
+            u.push_str(*rng.pick(S_SAFE_TOKENS));
+            if rng.chance(1, 2) {
+                u.push('/');
+            }
+        }
+        let mut flags = flags_pick(&mut rng, &['h', 'i', 'l']);
+        if flags == "-" {
+            flags.clear();
+        }
+        flags.push('r');
+        cases.push(s_case(&flags, "GET", &u, ""));
+    }
+    // every real entry, plainly and through one layer of encoding of its first byte
+    for &(p, _, _) in TREE {
+        let enc: String = p
+            .bytes()
+            .map(|b| if b.is_ascii_alphanumeric() || b == b'/' || b == b'.' { (b as char).to_string() } else { format!("%{:02X}", b) })
+            .collect();
+        for fl in ["-", "h", "hil"] {
+            cases.push(s_case(fl, "GET", &format!("/{}", enc), ""));
+        }
+    }
+
+    // ---- S: ranges — malformed table × all lengths
+    for &(f, _) in RANGE_FILES {
+        for r in MALFORMED_RANGES {
+            cases.push(s_case("-", "GET", &format!("/{}", f), &format!("r={}", hex(r.as_bytes()))));
+        }
+    }
+    // boundary numbers: a-b, a-, -n on every length (large files sampled)
+    for &(f, len) in RANGE_FILES {
+        let nums = range_numbers(len);
+        let big = len > 1000;
+        for a in &nums {
+            for shape in 0..3 {
+                if shape < 2 {
+                    let r = if shape == 0 { format!("bytes={}-", a) } else { format!("bytes=-{}", a) };
+                    cases.push(s_case(if big { "s" } else { "-" }, "GET", &format!("/{}", f), &format!("r={}", hex(r.as_bytes()))));
+                } else {
+                    for b in &nums {
+                        if big && !rng.chance(1, if quick { 6 } else { 2 }) {
+                            continue;
+                        }
+                        let r = format!("bytes={}-{}", a, b);
+                        cases.push(s_case("-", "GET", &format!("/{}", f), &format!("r={}", hex(r.as_bytes()))));
+                    }
+                }
+            }
+        }
+    }
+    // random range sets with whitespace
+    for _ in 0..ctx.budget(1500) {
+        let &(f, len) = if rng.chance(1, 8) { rng.pick(&RANGE_FILES[3..]) } else { rng.pick(&RANGE_FILES[..3]) };
+        let nums = range_numbers(len);
+        let k = rng.range(1, 4);
+        let mut specs = Vec::new();
+        for _ in 0..k {
+            let ws = |rng: &mut Rng| *rng.pick(&["", "", "", " ", "\t", "  "]);
+            let a = rng.pick(&nums).clone();
+            let b = rng.pick(&nums).clone();
+            let spec = match rng.below(6) {
+                0 => format!("{}{}-{}{}", ws(&mut rng), a, ws(&mut rng), b),
+                1 => format!("{}-{}", a, ws(&mut rng)),
+                2 => format!("{}-{}", ws(&mut rng), b),
+                3 => format!("{}-{}", a, b),
+                4 => (*rng.pick(&["", " ", "x", "-", "1", "1-2-3", "--1"])).to_owned(),
+                _ => format!("{}-", a),
+            };
+            specs.push(spec);
+        }
+        let prefix = if rng.chance(1, 20) { *rng.pick(&["Bytes=", "bytes= ", "bytes", ""]) } else { "bytes=" };
+        let r = format!("{}{}", prefix, specs.join(","));
+        cases.push(s_case(if rng.chance(1, 3) { "s" } else { "-" }, "GET", &format!("/{}", f), &format!("r={}", hex(r.as_bytes()))));
+    }
+    // Range values that are not visible ASCII
+    for r in [&b"bytes=0-1\xff"[..], &b"\x80"[..], &b"bytes=\xc3\xa9"[..]] {
+        cases.push(s_case("-", "GET", "/f10", &format!("r={}", hex(r))));
+    }
+
+    // ---- S: conditionals — all pairs, then random combinations with ranges and flags
+    for im in TAG_VALUES {
+        for inm in TAG_VALUES {
+            cases.push(s_case("-", "GET", "/f10", &format!("im={} inm={}", im, inm)));
+        }
+        cases.push(s_case("-", "GET", "/f10", &format!("im={}", im)));
+        cases.push(s_case("-", "GET", "/f10", &format!("inm={}", im)));
+        cases.push(s_case("E", "GET", "/f10", &format!("im={}", im)));
+        cases.push(s_case("E", "GET", "/f10", &format!("inm={}", im)));
+        for d in DATE_VALUES {
+            cases.push(s_case("-", "GET", "/f10", &format!("inm={} ims={}", im, d)));
+            cases.push(s_case("-", "GET", "/f10", &format!("im={} ius={}", im, d)));
+        }
+    }
+    for ius in DATE_VALUES {
+        for ims in DATE_VALUES {
+            cases.push(s_case("-", "GET", "/f10", &format!("ius={} ims={}", ius, ims)));
+            cases.push(s_case("M", "GET", "/f10", &format!("ius={} ims={}", ius, ims)));
+        }
+    }
+    for _ in 0..ctx.budget(1500) {
+        let mut extra = Vec::new();
+        if rng.chance(1, 2) {
+            extra.push(format!("im={}", rng.pick(TAG_VALUES)));
+        }
+        if rng.chance(1, 2) {
+            extra.push(format!("inm={}", rng.pick(TAG_VALUES)));
+        }
+        if rng.chance(1, 2) {
+            extra.push(format!("ius={}", rng.pick(DATE_VALUES)));
+        }
+        if rng.chance(1, 2) {
+            extra.push(format!("ims={}", rng.pick(DATE_VALUES)));
+        }
+        if rng.chance(1, 2) {
+            let r = *rng.pick(&["bytes=2-5", "bytes=0-", "bytes=-3", "bytes=10-", "bytes=99-", "bytes=x", "bytes=0-0,5-6", ""]);
+            extra.push(format!("r={}", hex(r.as_bytes())));
+        }
+        let f = *rng.pick(&["/f10", "/f10", "/f1", "/f0", "/a/x.txt", "/a/", "/nope"]);
+        let flags = flags_pick(&mut rng, &['E', 'M', 'i', 's']);
+        cases.push(s_case(&flags, "GET", f, &extra.join(" ")));
+    }
+    cases
+}
 
 pub fn prop() -> Prop {
-    Prop {
-        rule: "unimplemented",
-        parallel: false,
-        gen: Box::new(|_| Vec::new()),
-        run: Box::new(|_| CaseResult::ok("unimplemented".to_owned())),
-    }
+    Prop { rule: RULE, parallel: true, gen: Box::new(gen), run: Box::new(run) }
 }
